@@ -3,7 +3,7 @@ usage: /venv/bin/python harness/baseline_check.py [repo_dir]"""
 import json, os, subprocess, sys, tempfile, xml.etree.ElementTree as ET
 repo = sys.argv[1] if len(sys.argv) > 1 else "/repo"
 base = json.load(open("/root/.vp/BASELINE.json"))
-out = os.path.join("/verif/work", "baseline.junit.xml")
+out = os.path.join("/verif/work", f"baseline.{os.getpid()}.junit.xml")
 os.makedirs("/verif/work", exist_ok=True)
 cmd = f"cd {repo} && /venv/bin/python -m pytest -ra -q -p no:cacheprovider --timeout=900 --continue-on-collection-errors --junitxml={out}"
 env = dict(os.environ); env["PYTHONPATH"] = repo
